@@ -269,7 +269,7 @@ impl Monitor for C01 {
         k -= self.n_edge;
         if k < self.n_asm {
             let mut r = Rng::derive(self.seed, 0x0102, k, 0);
-            let max_plain = self.tier.pick(40_000, 300_000);
+            let max_plain = self.tier.pick(150_000, 400_000);
             let g = wrap::assemble(&mut r, max_plain, 4);
             ctx.count("cases:assembled");
             ctx.count_n("embedded_streams", g.embedded.len() as u64);
